@@ -162,7 +162,8 @@ partial def parseWOp (ts : List String) : Option WOp :=
     | _ => none
   | "rjoin" :: k :: m :: acts => do
     let acts ← mapM? parseRAct? acts
-    pure (.rjoin (← k.toNat?) (m == "m") acts)
+    -- mode `x` = mutable restricted join through `.join()` (shared items: get / get_mut only); same model op
+    pure (.rjoin (← k.toNat?) (m == "m" || m == "x") acts)
   | ["drop_world"] => some .dropWorld
   | ts => (parseEOp ts).map .ent
 
